@@ -108,7 +108,11 @@ def yaml_load(stream):
     except ValueError as ex:
         # not every failure in PyYAML is a YAMLError, e.g. int("", 2) for "0b_" or a lone surrogate that cannot be encoded
         raise yaml.YAMLError(f"{type(ex).__name__}: {ex}") from ex
-    if _is_recursive(value):
+    try:
+        recursive = _is_recursive(value)
+    except RecursionError as ex:
+        raise yaml.YAMLError("Value nested too deeply") from ex
+    if recursive:
         raise yaml.YAMLError("Recursive aliases are not supported")
     if isinstance(value, dict) and value and all(v is None for v in value.values()):
         if len(value) == 1 and stream.strip() == next(iter(value.keys())) + ":":
